@@ -107,4 +107,17 @@ for a in [1, 2]:
 """,
         what="function call (jal) inside a for-over-list body overwrites the body's return address",
     ),
+    "inline_arg_alias": dict(
+        src=HDR + """
+G = d0.Setting
+
+def f(p):
+    global G
+    G = p + 1
+    db.Setting = p
+
+f(G)
+""",
+        what="inlined call f(G) where f assigns the global G: parameter p is aliased to G's register and changes with it",
+    ),
 }
